@@ -156,13 +156,18 @@ func genC12(rng *rand.Rand, n int, emit func(Case), dist map[string]int) {
 			method := methods[rng.Intn(len(methods))]
 			cookieMode := rng.Intn(5) // 0 absent, 1 empty, else present
 			cookieVal := []string{"TokenAbCdEfGh", "tok", "ZZZZZZZZ", "a b"}[rng.Intn(3)]
+			if rng.Intn(10) == 0 {
+				// a token far longer than any TokenLength can generate (a cookie is the client's: it can hold anything)
+				cookieVal = strings.Repeat("LongTokenAbCdEfGh", 25)[:250+rng.Intn(150)]
+				dist["long_cookie_token"]++
+			}
 			if cookieMode == 1 {
 				cookieVal = ""
 			}
 			hasCookie := cookieMode != 0
 			variant := func() string {
 				t := cookieVal
-				switch rng.Intn(9) {
+				switch rng.Intn(11) {
 				case 0:
 					if len(t) > 1 {
 						return t[:len(t)-1]
@@ -177,6 +182,15 @@ func genC12(rng *rand.Rand, n int, emit func(Case), dist map[string]int) {
 					return ""
 				case 5:
 					return "unrelated"
+				case 6:
+					if len(t) > 0 { // same length, the LAST byte differs
+						return t[:len(t)-1] + string(t[len(t)-1]^1)
+					}
+				case 7:
+					if len(t) > 2 { // same length, a byte in the second half differs
+						i := len(t)/2 + rng.Intn(len(t)-len(t)/2)
+						return t[:i] + string(t[i]^1) + t[i+1:]
+					}
 				}
 				return t
 			}
